@@ -2,11 +2,14 @@ From Coq Require Import List Arith Bool.
 Import ListNotations.
 From Verif Require Import C11.Reload.
 
-(* a live process: the views agree and nothing is Initial *)
-Definition Inv (s : st) : Prop := dead s = false -> stored s = mem s /\ stored s <> Some SInitial.
+(* a live process: the views agree, nothing is Initial, the entity of the target is registered while the task runs and
+   is not registered when there is no task (a deleted task has released it) *)
+Definition Inv (s : st) : Prop :=
+  dead s = false ->
+  stored s = mem s /\ stored s <> Some SInitial /\ (mem s = Some SRunning -> ent s = true) /\ (mem s = None -> ent s = false).
 
 Lemma both_inv x : x <> Some SInitial -> Inv (both x).
-Proof. intros H _. cbn. auto. Qed.
+Proof. intros H _. cbn. repeat split; auto; intros E; rewrite E; reflexivity. Qed.
 Lemma die_inv s : Inv (die s).
 Proof. intros H. discriminate. Qed.
 
@@ -18,12 +21,14 @@ Qed.
 
 Lemma step_inv s l : Inv s -> Inv (step cfg_now s l).
 Proof.
-  intros Hs. destruct l as [cut|cut|cut| | ]; cbn [step].
+  intros Hs. destruct l as [cut|cut|cut| | | ]; cbn [step].
   - destruct (dead s) eqn:Hd; [exact Hs|]. destruct (mem s); [exact Hs|].
     destruct (is_cut cut 0); [apply die_inv|]. destruct (is_cut cut 1); [apply die_inv|].
     destruct (is_cut cut 2); [apply die_inv | apply both_inv; discriminate].
   - destruct (dead s) eqn:Hd; [exact Hs|]. destruct (mem s) as [[| |]|]; try exact Hs. apply one_write_inv. discriminate.
   - destruct (dead s) eqn:Hd; [exact Hs|]. destruct (mem s) as [[| |]|]; try exact Hs. apply one_write_inv. discriminate.
+  - destruct (dead s) eqn:Hd; [exact Hs|]. destruct (mem s) as [[| |]|] eqn:Hm; try exact Hs.
+    intros _. destruct (Hs Hd) as [A [B _]]. cbn [stored mem ent]. rewrite Hm in *. repeat split; auto; discriminate.
   - destruct (dead s) eqn:Hd; [exact Hs|]. destruct (mem s); [apply both_inv; discriminate | exact Hs].
   - destruct (stored s) as [[| |]|]; cbn [cfg_now reload_updates_initial]; apply both_inv; discriminate.
 Qed.
@@ -32,12 +37,20 @@ Theorem reload_every_history ls : Inv (run cfg_now init ls).
 Proof.
   assert (H : forall s, Inv s -> Inv (run cfg_now s ls)).
   { induction ls as [|l r IH]; cbn [run]; intros s Hs; auto using step_inv. }
-  apply H. intros _. cbn. split; [reflexivity | discriminate].
+  apply H. intros _. cbn. repeat split; auto; discriminate.
 Qed.
+
+(* a delete releases the entity, whatever was left registered - also the idle entity a refused resume leaves behind *)
+Theorem delete_releases s x : dead s = false -> mem s = Some x -> ent (step cfg_now s LDelete) = false.
+Proof. intros Hd Hm. cbn [step]. rewrite Hd, Hm. reflexivity. Qed.
+
+(* so does a pause *)
+Theorem pause_releases s : dead s = false -> mem s = Some SRunning -> ent (step cfg_now s (LPause None)) = false.
+Proof. intros Hd Hm. cbn [step]. rewrite Hd, Hm. reflexivity. Qed.
 
 (* after a restart every persisted task runs, whatever the crash left in the store *)
 Theorem restart_runs s x : stored s = Some x ->
-  let s' := step cfg_now s LRestart in stored s' = Some SRunning /\ mem s' = Some SRunning /\ dead s' = false.
+  let s' := step cfg_now s LRestart in stored s' = Some SRunning /\ mem s' = Some SRunning /\ dead s' = false /\ ent s' = true.
 Proof. intros H. cbn [step]. rewrite H. destruct x; cbn; auto. Qed.
 
 (* a record the crash left as Initial is reachable ... *)
